@@ -29,6 +29,11 @@ def build(tier, seed):
         obs.append(Ob('C08.K2.fixup.exit.' + nm, u, 'C08/fixup_step.c', 'h_exit',
                       nm + ' fixup_insert: loop exit and final root recolouring', kind='K2', contracts=['rb.h'], defines=['FLAVOUR=%d' % fl],
                       flags=['--unwind', '3', '--unwinding-assertions'], replay='C08'))
+    for fl, nm in ((1, 'owning'), (2, 'intrusive')):
+        obs.append(Ob('C08.K2.descent.find.' + nm, u, 'C08/descent.c', 'h_find_step', nm + ' find: induction step of the search loop on the outlined real body with ghost key intervals: the key stays inside the interval of the position reached, a hit is an equal key, depth increases',
+                      kind='K2', contracts=['rb.h'], defines=['FLAVOUR=%d' % fl], replay='C08', timeout=300))
+        obs.append(Ob('C08.K2.descent.insert.' + nm, u, 'C08/descent.c', 'h_insert_step', nm + ' insert: induction step of the descent on the outlined real body: parent and slot name the child link taken, the key lies in the slot\'s interval (a leaf linked there keeps the order), a stop is an equal key',
+                      kind='K2', contracts=['rb.h'], defines=['FLAVOUR=%d' % fl], replay='C08', timeout=300))
     nk = 3 if tier == 'quick' else 5
     for h, nm in (('h_owning', 'owning'), ('h_intrusive', 'intrusive')):
         obs.append(Ob('C08.K5.%s.%dkeys' % (nm, nk), u, 'C08/bounded.c', h,
